@@ -213,7 +213,7 @@ def run_unit(name, features=None, variant=None, seed=0, canary=True, threads=8):
         result["why"] = "expected functions not verified (vacuity guard): %s" % missing
     # canary variant
     result["canary"] = None
-    if canary and result["status"] == "ok":
+    if canary and result["status"] in ("ok", "failed"):
         ctext, clinemap = u.generate(canary=True)
         cpath = os.path.join(BUILD, base + "_canary.rs")
         open(cpath, "w").write(ctext)
